@@ -64,6 +64,14 @@ def native(fn, *args, **kwargs):
     return fn(*args, **kwargs)
 
 
+def pick(x, n: int) -> int:
+    """Fork on a small symbolic int/bool (0 <= x < n) and return the plain Python int of this path."""
+    for i in range(n):
+        if x == i:
+            return i
+    raise AssertionError("pick: value outside range")
+
+
 _installed = False
 
 
